@@ -141,6 +141,10 @@ def gen_two_grans(rng):
     a, b = rng.choice([("day", "month"), ("week", "month"), ("day", "week"), ("month", "year"), ("day", "quarter"), ("week", "year")])
     case["dims"] = ["ts__" + a, "ts__" + b] if rng.random() < 0.5 else ["ts__" + b, "ts__" + a]
     case["filters"] = []
+    # rows on both sides of a month / quarter / year boundary that lies INSIDE one ISO week (2024-01-29..02-04, 2024-02-26..03-03, 2024-12-30..2025-01-05)
+    base = len(case["rows"])
+    for j, (y, m, dd) in enumerate([(2024, 1, 30), (2024, 2, 2), (2024, 2, 27), (2024, 3, 1), (2024, 12, 31), (2025, 1, 2)]):
+        case["rows"].append((base + j + 1, datetime.datetime(y, m, dd, 7), ["a", "b"][j % 2], ["x", "y"][j % 2], 1 + j, j % 2))
     return case
 
 
